@@ -127,7 +127,26 @@ def build_mesh(family, geometry, rng, n=None, interior_only=False, amp=0.12):
         f = smooth_map(rng, dim)
         mesh = mesh.copy(points=f(mesh.points))
         info.update(volume=None)
-    return mesh, info
+    return renumber(mesh), info
+
+
+def renumber(mesh, every=3):
+    """Metamorphic variation: the same body with its points and cells in another order (point and cell numbers carry no
+    meaning; generators number them structured). Decided and seeded by the coordinates themselves, so the random stream of the
+    calling case is not touched. Applied to one mesh in ``every``."""
+    import os
+    import zlib
+    if os.environ.get("VERIF_RENUMBER", "1") == "0":
+        return mesh
+    h = zlib.crc32(np.ascontiguousarray(mesh.points).tobytes())
+    if h % every:
+        return mesh
+    r = np.random.default_rng(h)
+    perm = r.permutation(mesh.npoints)
+    inv = np.empty_like(perm)
+    inv[perm] = np.arange(mesh.npoints)
+    cells = inv[mesh.cells][r.permutation(mesh.ncells)]
+    return fem().Mesh(mesh.points[perm], cells, mesh.cell_type)
 
 
 def make_region(family, mesh, **kw):
